@@ -3,4 +3,6 @@ import UberjobModel.Props.C05
 #print axioms Uberjob.Cache.C05_downstream
 #print axioms Uberjob.Cache.C05_fresh_monotone
 #print axioms Uberjob.Cache.C05_idempotent
+#print axioms Uberjob.Cache.C05_end_to_end_only_stale
+#print axioms Uberjob.Cache.C05_end_to_end
 #print axioms Uberjob.Cache.C05_source_shape
